@@ -188,6 +188,18 @@ class Ctx:
         if axioms:
             tb.append(f'Print Assumptions ({props}): standard-library axioms used: ' + ', '.join(sorted(axioms)))
         self.cov['trusted_base'] += tb
+        if self.tier == 'thorough':
+            # independent re-check of the compiled property file and everything it depends on
+            rc2, out2 = sh(f'timeout 1500 coqchk -o -silent -Q theories SS SS.Props.{props} 2>&1', cwd=COQ, timeout=1600)
+            summ = out2[out2.find('CONTEXT SUMMARY'):] if 'CONTEXT SUMMARY' in out2 else out2[-800:]
+            bad = rc2 != 0 or 'type-in-type: <none>' not in summ or 'unsafe (co)fixpoints: <none>' not in summ or 'positivity is assumed: <none>' not in summ
+            ax2 = re.findall(r'^\s{4}(Coq\.[\w\.]+)\s*$', summ, re.M)
+            own = [a for a in re.findall(r'^\s{4}(\S+)\s*$', summ, re.M) if not a.startswith('Coq.')]
+            if bad or own:
+                self.broke('obligation', f'coqchk does not accept Props/{props}.vo cleanly', summ[-1500:])
+            else:
+                self.cov['trusted_base'].append(f'coqchk -o (Props/{props}.vo and all dependencies): accepted; axioms of all loaded libraries: ' + ', '.join(sorted(ax2)))
+                self.log(f'coqchk: Props/{props}.vo accepted')
         self.log(f'coq: {len(theorems)} obligations of Props/{props}.v discharged; {closed} closed; axioms: {sorted(axioms) or "none"}')
         return True
 
@@ -293,8 +305,10 @@ class Ctx:
         rc = 0
         os.makedirs(os.path.join(VERIF, 'replays'), exist_ok=True)
         lines = []
-        for k in self.known_hit:
-            lines.append(f"KNOWN-FINDING: property={self.pid} {k['id']}: {k['what']}")
+        hit_ids = [x['id'] for x in self.known_hit]
+        for k in kf:     # every open finding listed for this property (fixed entries are not loaded: they suppress nothing and print nothing)
+            tag = 'reproduced in this run' if k['id'] in hit_ids else 'listed; not exercised by the inputs of this run'
+            lines.append(f"KNOWN-FINDING: property={self.pid} {k['id']} [{tag}]: {k['what']}")
         if len(out_viol) > 5:
             self.log(f'{len(out_viol)} violating inputs found; reporting the first 5')
         for v in out_viol[:5]:
